@@ -206,3 +206,113 @@ Definition rl_space_ok (guarded : bool) : bool :=
   forallb (fun rs => forallb (fun sb => forallb (fun so =>
     rl_result_eqb (sort_routers guarded sb so rs) (expected_result sb so (N.of_nat (length rs))))
     rl_sort_orders) rl_sort_bys) rl_populations.
+
+(* ---------------------------------------------------------------- the ORDER of the rows *)
+(* a router with the two strings the list can sort on (sysName, sysDesc of its Initiation) *)
+Record rrouter := MkRR { rr_state : rstate; rr_name : bytes; rr_desc : bytes }.
+
+(* what a row is sorted on: a number (the nine numeric keys) or a string
+   (sys_name / sys_desc: Rust's String ordering = bytes, lexicographic) *)
+Inductive skey := SNum (n : N) | SStr (s : bytes).
+
+Fixpoint bytes_le (a b : bytes) : bool :=
+  match a, b with
+  | [], _ => true
+  | _ :: _, [] => false
+  | x :: a', y :: b' => if x <? y then true else if y <? x then false else bytes_le a' b'
+  end.
+
+Definition skey_le (a b : skey) : bool :=
+  match a, b with
+  | SNum x, SNum y => x <=? y
+  | SStr x, SStr y => bytes_le x y
+  | _, _ => true
+  end.
+
+Definition k_dash : bytes := [45].   (* "-": `map_or_else(|| "-", ..)` for a router without TLVs *)
+
+(* the key of one row. No sort_by / "addr": the iteration order of router_info
+   (a hash map) - every order is acceptable, all rows carry the same key. *)
+Definition row_key (guarded : bool) (sort_by : option bytes) (r : rrouter) : option skey :=
+  match sort_by with
+  | None => Some (SNum 0)
+  | Some k =>
+      if beqb k k_addr then Some (SNum 0)
+      else if beqb k k_sys_name then
+        Some (SStr (match rr_state r with RInitiating => k_dash | RUp _ _ _ => rr_name r end))
+      else if beqb k k_sys_desc then
+        Some (SStr (match rr_state r with RInitiating => k_dash | RUp _ _ _ => rr_desc r end))
+      else match sort_value guarded k (rr_state r) with Some v => Some (SNum v) | None => None end
+  end.
+
+(* (key, index of the router in the population), for every router; None = a key panicked *)
+Fixpoint keyed_from (guarded : bool) (sort_by : option bytes) (i : N) (rs : list rrouter) : option (list (skey * N)) :=
+  match rs with
+  | [] => Some []
+  | r :: t => match row_key guarded sort_by r, keyed_from guarded sort_by (i + 1) t with
+              | Some k, Some l => Some ((k, i) :: l)
+              | _, _ => None
+              end
+  end.
+
+(* sort_unstable_by on the key: modelled by insertion sort - one of the orders
+   sort_unstable may produce; rows with equal keys may come in any order *)
+Fixpoint ins_row (x : skey * N) (l : list (skey * N)) : list (skey * N) :=
+  match l with
+  | [] => [x]
+  | y :: t => if skey_le (fst x) (fst y) then x :: l else y :: ins_row x t
+  end.
+Fixpoint sort_rows (l : list (skey * N)) : list (skey * N) :=
+  match l with [] => [] | x :: t => ins_row x (sort_rows t) end.
+
+Definition is_desc (sort_order : option bytes) : bool :=
+  match sort_order with Some o => beqb o k_desc | None => false end.
+
+(* the rows of the page, top to bottom (for requests that are answered 200) *)
+Definition page_rows (guarded : bool) (sort_by sort_order : option bytes) (rs : list rrouter) : option (list (skey * N)) :=
+  match keyed_from guarded sort_by 0 rs with
+  | Some l => let s := sort_rows l in Some (if is_desc sort_order then rev s else s)
+  | None => None
+  end.
+
+Fixpoint sortedb (l : list skey) : bool :=
+  match l with
+  | x :: (y :: _) as t => skey_le x y && sortedb t
+  | _ => true
+  end.
+
+(* reading direction in which the keys must be non-decreasing *)
+Definition in_reading_order (sort_order : option bytes) (l : list skey) : list skey :=
+  if is_desc sort_order then rev l else l.
+
+(* the two sort parameters of a request, as process_request extracts them *)
+Definition request_sort_params (r : request) : option bytes * option bytes :=
+  let ps := params_of (rq_query r) in
+  let '(sb, ps1) := get_param k_sort_by ps in
+  let '(so, _) := get_param k_sort_order ps1 in
+  (option_map m_value sb, option_map m_value so).
+
+(* a population in which every pair of judged sort keys orders some pair of routers differently *)
+Definition mk_peers (up eor dump : nat) : list rpeer :=
+  map (fun i => MkPeer (N.of_nat i) (Nat.ltb i eor) (Nat.ltb i dump)) (seq 0 up).
+Definition rl_discriminating : list rrouter :=
+  [MkRR (RUp (mk_peers 3 1 1) 0 2) [98] [121]; MkRR (RUp (mk_peers 2 2 2) 1 0) [97] [122];
+   MkRR (RUp (mk_peers 1 0 0) 2 1) [99] [120]; MkRR (RUp (mk_peers 4 3 1) 0 0) [100] [119];
+   MkRR (RUp (mk_peers 5 4 2) 3 3) [101] [118]; MkRR RInitiating [] []; MkRR (RUp (mk_peers 1 1 0) 1 1) [102] [117]].
+
+Definition judged_keys : list bytes :=
+  [k_sys_name; k_sys_desc; k_peers_up; k_peers_up_eor_capable; k_peers_up_dumping; k_peers_up_eor_capable_pc;
+   k_peers_up_dumping_pc; k_soft_parse_errors; k_hard_parse_errors].
+
+(* sorting by [k2] leaves the [k1] column out of order *)
+Definition keys_disagree (rs : list rrouter) (k1 k2 : bytes) : bool :=
+  match page_rows true (Some k2) None rs with
+  | Some rows =>
+      let col := map (fun row => match nth_error rs (N.to_nat (snd row)) with
+                                 | Some r => match row_key true (Some k1) r with Some k => k | None => SNum 0 end
+                                 | None => SNum 0 end) rows in
+      negb (sortedb col)
+  | None => false
+  end.
+Definition all_keys_disagree (rs : list rrouter) : bool :=
+  forallb (fun k1 => forallb (fun k2 => beqb k1 k2 || keys_disagree rs k1 k2) judged_keys) judged_keys.
